@@ -648,6 +648,14 @@ class Interp:
             return ISet(a.elems + b.elems)
         if op == '-' and isinstance(a, ISet) and isinstance(b, ISet):
             return ISet([x for x in a.elems if not b.has(x)])
+        if inplace and isinstance(a, Inst):
+            iname = {'+': '__iadd__', '-': '__isub__', '*': '__imul__'}.get(op)
+            if iname and (a.cls.has(iname) or getattr(a.cls, 'native_getattr', None) is not None or any(getattr(c, 'native_getattr', None) for c in a.cls.mro)):
+                try:
+                    return self.call(self.getattr(a, iname), [b], {})
+                except PyRaise as e:
+                    if e.exc.cls.name != 'AttributeError':
+                        raise
         if isinstance(a, Inst) or isinstance(b, Inst):
             for x, name in ((a, {'+': '__add__', '-': '__sub__', '*': '__mul__', '/': '__truediv__'}.get(op)),):
                 if isinstance(x, Inst) and name and x.cls.has(name):
